@@ -101,7 +101,7 @@ class PWorld(TR.World):
         def di_get(ev, name):
             # utils.DynamicImport: the Fortran2003 module's own classes, whatever the standard in force
             if name == "C99Preprocessor":
-                return PE.Obj({"match_cpp_directive": g["match_cpp_directive"]})
+                return world.module_obj(C99)
             if name == "add_comments_includes_directives":
                 return g[name]
             if name == "Label_Do_Stmt_2008":
@@ -140,6 +140,29 @@ class PWorld(TR.World):
         self.construct_from = self._construct_from
         # the tokeniser itself, interpreted (the statement-level samples use a model of it)
         g["string_replace_map"] = lambda line, lower=False: self.rw.call(RI.SL, "string_replace_map", line, lower=lower)
+
+    def module_obj(self, modname):
+        """a module as its functions see it: classes, functions and constants of the interpreted namespace, and module-level
+        literals (`CPP_CLASS_NAMES = [...]`) evaluated from the module's AST"""
+        g = self.ev.g
+        path = self.m.modfile.get(modname)
+        tree = self.m.files[path][1] if path in self.m.files else None
+        mod = PE.Obj({})
+
+        def get(ev, name):
+            if tree is not None:
+                for node in tree.body:
+                    if isinstance(node, ast.Assign) and len(node.targets) == 1 and isinstance(node.targets[0], ast.Name) \
+                            and node.targets[0].id == name:
+                        try:
+                            return ast.literal_eval(node.value)
+                        except (ValueError, SyntaxError):
+                            return self.ev.ev(node.value, {})
+            if name in g:
+                return g[name]
+            raise PE.PyRaise("AttributeError", "%s.%s" % (modname, name))
+        mod.get = get
+        return mod
 
     # ---------------------------------------------------------------- exceptions with an __init__ of their own
     def make_exc(self, name):
